@@ -277,9 +277,9 @@ func (vt *Model) update(seq ansi.Sequence) {
 			if len(seq.Intermediate) > 0 {
 				return
 			}
-			if len(seq.Parameters) > 0 {
-				return
-			}
+			// The parameters (pixel aspect ratio, background select
+			// and horizontal grid size) don't change what the data
+			// means to the decoder
 			// Write the raw sequence to the writer
 			buf := bytes.NewBuffer(nil)
 			// DCS
@@ -287,7 +287,7 @@ func (vt *Model) update(seq ansi.Sequence) {
 			// Params
 			for i, p := range seq.Parameters {
 				buf.WriteString(strconv.Itoa(p))
-				if i <= len(seq.Parameters)-1 {
+				if i < len(seq.Parameters)-1 {
 					buf.WriteByte(';')
 				}
 			}
